@@ -134,6 +134,13 @@ func runC09(p *eng.Prog, r *eng.Report, tier string) {
 	closerTypestate(c, "C09.9")
 	// C09.10 decoder typestate everywhere peer XML is decoded by hand
 	decoderSkipTypestate(c, "C09.10", func(f *eng.Fn) bool { return true }, 15)
+	// C09.14 the in-band bytestream close paths (a skipped step makes the
+	// handler send a blocking request from inside the serve loop)
+	c15CloseAs(c, "C09.14")
+	ni := errCarrierInvariant(c, "C09.13", func(f *eng.Fn) bool { return true })
+	r.Note("C09.13: %d iterator literals without an inner iterator examined", ni)
+	ne := errFieldDropped(c, "C09.12", func(f *eng.Fn) bool { return true })
+	r.Note("C09.12: %d selections of a field from an error-carrying call result examined", ne)
 	nd := tokenDecoderUnmarshaler(c, "C09.11", func(f *eng.Fn) bool { return true })
 	r.Note("C09.11: %d DecodeElement calls with an Unmarshaler target on a NewTokenDecoder decoder examined", nd)
 }
